@@ -279,12 +279,13 @@ def native_reader_cases(rng, n_files=None, quick=True, case=None):
     metas = sorted(f for f in os.listdir(FIX) if f.endswith(".meta"))
     if n_files:
         metas = metas[:n_files]
+    first_geometry = {}
     for mf in metas:
         d = tempfile.mkdtemp(prefix="c01_")
         try:
             ns = int(rng.integers(40, 90))
             b, D, md = _write_rec(d, os.path.join(FIX, mf), ns, rng)
-            for sort in (True, False):
+            for sort in (True, False, True):
                 try:
                     sr = spikeglx.Reader(b, sort=sort)
                 except Exception as e:
@@ -307,7 +308,9 @@ def native_reader_cases(rng, n_files=None, quick=True, case=None):
                 else:
                     order = np.arange(nc)
                 V = D.astype(np.float32)[:, order] * s2v[order].astype(np.float32) if False else (D[:, order].astype(np.float32) * sr.channel_conversion_sample2v[sr.type][order])
-                sels_n = [0, -1, ns - 1, slice(None), slice(3, 17), slice(None, None, -1), slice(ns + 5, 2, -3), slice(-7, None, 2), slice(5, 5), [1, 4, 2], np.array([0, ns - 1])]
+                perm = rng.permutation(ns)[:9]
+                sels_n = [0, -1, ns - 1, slice(None), slice(3, 17), slice(None, None, -1), slice(ns + 5, 2, -3), slice(-7, None, 2), slice(5, 5), [1, 4, 2], np.array([0, ns - 1]),
+                          [20, 3, 7], perm, [10, 2, 10, 33, 2, 5], np.array([-1, 4, -ns, 2, -3]), [6]]
                 sels_c = [0, -1, slice(None), slice(2, 9, 3), slice(None, None, -1), slice(4, 4), [0, 5 % nc, 3 % nc], np.array([nc - 1, 1]), list(range(nc - 1, nc))]
                 for sn in sels_n:
                     for sc in sels_c:
@@ -325,13 +328,32 @@ def native_reader_cases(rng, n_files=None, quick=True, case=None):
                 nsy = sr.nsync
                 if nsy and not np.array_equal(sr[:, nc - nsy:], D[:, nc - nsy:].astype(np.float32)):
                     bad.append((mf, sort, "sync scaled"))
+                # read() with the sync returned separately, unsorted sample lists included
+                for sn in (slice(2, 30, 3), [20, 3, 7], perm):
+                    dat, syn = sr.read(nsel=sn, csel=slice(None), sync=True)
+                    ok = np.array_equal(dat, V[sn]) and (syn is None or np.shape(syn)[0] == len(V[sn]))
+                    if ok and syn is not None and sr.type in ("ap", "lf") and nsy and np.shape(syn)[1] >= 16:
+                        word = D[sn][:, -1].astype(np.int16).view(np.uint16).astype(int)
+                        ok = all(np.array_equal(np.asarray(syn)[:, k], (word >> k) & 1) for k in range(16))
+                    if not ok:
+                        bad.append((mf, sort, repr(sn), "read(sync=True): data rows / sync rows not those of the requested samples in the requested order"))
+                # the geometry does not depend on how many readers were built before in this process: entry i describes the electrode behind column i
+                if sr.geometry is not None:
+                    unsort = np.argsort(np.asarray(sr.geometry["ind"]).astype(int), kind="stable")
+                    snap = {k: np.asarray(v)[unsort].copy() for k, v in sr.geometry.items() if np.size(v) == np.size(sr.geometry["ind"])}
+                    if mf in first_geometry:
+                        for k, v in snap.items():
+                            if not np.array_equal(v, first_geometry[mf][k], equal_nan=True):
+                                bad.append((mf, sort, "geometry key %s differs from the first reader built on this file" % k, float(np.nanmax(np.abs(v - first_geometry[mf][k])))))
+                    else:
+                        first_geometry[mf] = snap
                 sr.close()
         finally:
             shutil.rmtree(d, ignore_errors=True)
     return bad
 
 
-@bounded(PROPERTY, "native_all_metas", bound="every meta file shipped in tests/unit/fixtures (3A, 3B, NP2.1, NP2.4 both encodings, NPultra, subsets, nidq) x sorted/unsorted x 11 sample selectors x 9 channel selectors "
+@bounded(PROPERTY, "native_all_metas", bound="every meta file shipped in tests/unit/fixtures (3A, 3B, NP2.1, NP2.4 both encodings, NPultra, subsets, nidq) x sorted/unsorted/sorted again (3 readers per file: geometry must not depend on earlier readers) x 16 sample selectors incl. unsorted / repeated / negative index lists x 9 channel selectors, read(sync=True) "
          "(ints, slices with negative/over-range start/stop/step, empty, lists, arrays) on random int16 content, ns in 40..90",
          clause="all clauses natively, uncompressed files")
 def b_native(B):
